@@ -206,7 +206,7 @@ package iscp
 //@   nopanic
 //@   requires c.state != nil && c.state.cond != nil && c.state.RWMutex != nil && c.wireConn != nil && c.logger != nil && c.Config.TokenSource != nil
 //@   assert call CompareAndSwapNot: arg1 == connStatusClosed
-//@   assert call CompareAndSwap): arg1 == connStatusReconnecting
+//@   assert call connStatus).CompareAndSwap$: arg1 == connStatusReconnecting
 //@   ensures imp(old(c.state.current) == connStatusClosed, result == errors.ErrConnectionClosed && c.wireConn == old(c.wireConn))
 
 //@ func (*Conn).close
